@@ -43,13 +43,27 @@ func c12Inputs() map[string]string {
 	for i := 0; big.Len() < 12*1024; i++ {
 		fmt.Fprintf(big, "  - name: item-%04d\n    value: \"%s\"\n", i, strings.Repeat("x", 40))
 	}
-	return map[string]string{
+	// front matter files whose total size lies just below, at, just above and well beyond the 4096-byte buffer of the reader
+	// that splits the front matter off: the text behind it is then handed over in several reads
+	m := map[string]string{}
+	head := "---\na: 1\ntitle: t\n---\n"
+	for _, total := range []int{4095, 4096, 4097, 9000, 3*4096 + 5} {
+		body := &strings.Builder{}
+		for i := 0; body.Len() < total-len(head); i++ {
+			fmt.Fprintf(body, "line %05d of the body; --- is not a separator here\n", i)
+		}
+		m[fmt.Sprintf("front-%d", total)] = head + body.String()[:total-len(head)]
+	}
+	for k, v := range map[string]string{
 		"single": "# header\na: 1\nb: [1, 2] # c\n",
 		"three":  "a: 1\n---\na: 2\n---\na: 3\n",
 		"big":    big.String(),
 		"front":  "---\na: 1\ntitle: t\n---\nbody text\nmore body\n",
 		"bad2":   "a: 1\n---\na: [\n",
+	} {
+		m[k] = v
 	}
+	return m
 }
 
 func c12Combos(thorough bool) []c12Combo {
@@ -98,6 +112,12 @@ func c12Combos(thorough bool) []c12Combo {
 	for _, xdev := range []bool{false, true} {
 		out = append(out, c12Combo{Name: "front-matter", Input: in["front"], Args: []string{"--front-matter=process", ".a = 5"}, XDev: xdev, Mode: 0o640, Front: true})
 		out = append(out, c12Combo{Name: "front-matter-parse-error", Input: in["front"], Args: []string{"--front-matter=process", ".a = ("}, XDev: xdev, Mode: 0o640, Front: true})
+		for _, total := range []int{4095, 4096, 4097, 9000, 3*4096 + 5} {
+			if !thorough && (total == 4095 || total == 4096 || (xdev && total != 9000)) {
+				continue
+			}
+			out = append(out, c12Combo{Name: fmt.Sprintf("front-matter-%d-bytes", total), Input: in[fmt.Sprintf("front-%d", total)], Args: []string{"--front-matter=process", ".a = 5"}, XDev: xdev, Mode: 0o640, Front: true})
+		}
 	}
 	return out
 }
